@@ -73,6 +73,14 @@ def run_sync(ctx, corr, tr, ix):
         st = m.get("stamped") or {}
         fee = (tr0["commission"] + tr0["tax"]) if tr0 else (st.get("commission", 0.0) + st.get("tax", 0.0))      # fee stamped on a trade that was then refused for cash
         ct = tr0["close_today"] if tr0 else st.get("close_today", 0)
+        if m.get("signal"):
+            bar = ix.bar(o["book"], day8)
+            last = None if bar is None else (bar[1] if m["auction"] else bar[2])
+            lines.append(" ".join(["SIGMATCH", str(int(sim.get("price_limit", True))), kind, f2b(sim.get("slippage", 0)), f2b(tick_size(ix, o["book"]))] + ix.cfg_toks(o["book"]) + ord_toks(o) +
+                                  [of2b(last), of2b(lu), of2b(ld), f2b(fee), str(int(ct))]))
+            meta.append(m)
+            ctx.stats["signal_match_calls"] += 1
+            continue
         lines.append(" ".join(["MATCH", str(int(sim.get("price_limit", True))), str(int(sim.get("inactive_limit", True))), str(int(sim.get("volume_limit", True))),
                                f2b(sim.get("volume_percent", 0.25)), kind, f2b(sim.get("slippage", 0)), f2b(tick_size(ix, o["book"]))] + ix.cfg_toks(o["book"]) + ord_toks(o) +
                               [of2b(deal), of2b(lu), of2b(ld), of2b(vol), str(int(listed_today)), str(int(m["auction"])), str(int(m["turnover"])), f2b(m["cash"] + o["init_frozen"]),
